@@ -34,7 +34,11 @@ META = {
                   "Pending leaves the waker with the timer for that deadline, a handshake finishing in the late poll wins; C18_deadline_wakes / "
                   "_no_early_wake / _resolves_at_deadline — the clock reaching the deadline wakes that waker and the poll it triggers resolves the "
                   "call; C18_gate(+_parks,_wake,_no_lost_wakeup,_drop_silent,_guard_held,_call_acquires,_invariant) — Ready iff in-flight < max, "
-                  "else the caller is parked, and the drop of any in-flight future at the maximum wakes it. "
+                  "else the caller is parked, and the drop of any in-flight future at the maximum wakes it; "
+                  "C18_native_is_run / _native_invariant / _native_release_at_completion / _native_pending_holds / _native_deadline_first_poll — "
+                  "the native-tls acceptor (an async block, not an AcceptFut) is the same model on a transformed script (Model/TlsAccept.v, "
+                  "Section Native): its runs are ordinary runs, its slot is free inside the completing poll, its deadline is first-poll time + "
+                  "handshake_timeout. "
                   "ORACLES / ENVIRONMENT (not verified): the TLS handshake (rustls, OpenSSL) as a per-poll answer script; Tokio's Sleep as "
                   "'Ready iff deadline <= now, else store the waker and wake it when the clock reaches the deadline'. "
                   "DIFFERENTIAL RUN (not a theorem): real acceptors vs the extracted model on op scripts (timeouts 100..5000 ms virtual, limits "
